@@ -243,6 +243,9 @@ class Module:
         s.globals = collections.OrderedDict() # name -> (ty, init V or None, const)
         s.funcs = collections.OrderedDict()   # name -> Func
         s.decls = collections.OrderedDict()   # name -> (ret, [argtys], va)
+        s.nounwind_groups = set()             # attribute groups (#n) that contain nounwind
+        s.fn_attrs = {}                       # function name -> set of attribute-group tokens / words on its header
+        s.typeids = collections.OrderedDict() # typeinfo global name -> small integer (landingpad selectors)
 
 def cname(n):
     """LLVM identifier -> C identifier"""
@@ -256,8 +259,12 @@ def parse_module(text):
     i = 0
     while i < len(lines):
         line = lines[i]; i += 1
+        if line.startswith('attributes '):
+            m = re.match(r'attributes (#\d+) = \{(.*)\}', line)
+            if m and re.search(r'\bnounwind\b', m.group(2)): M.nounwind_groups.add(m.group(1))
+            continue
         if not line or line.startswith(';') or line.startswith('source_filename') or line.startswith('target ') \
-           or line.startswith('attributes ') or line.startswith('!') or line.startswith('$'):
+           or line.startswith('!') or line.startswith('$'):
             continue
         if line.startswith('%'):
             m = re.match(r'(%(?:"[^"]*"|[-a-zA-Z$._0-9]+)) = type (.*)$', line)
@@ -339,6 +346,7 @@ def parse_fn_header(M, p, is_decl):
                 args.append((t, an))
             if p.accept(')'): break
             p.expect(',')
+    M.fn_attrs[name] = set(v for k, v in p.t[p.i:] if k in ('attr', 'word'))
     if is_decl:
         M.decls[name] = (ret, [a[0] for a in args], va)
         return None
@@ -404,6 +412,12 @@ def parse_body(f, body):
             while not body[j].strip().startswith(']'):
                 line += ' ' + body[j].strip(); j += 1
             line += ' ]'; j += 1
+        if re.search(r'\binvoke\b', line) and ' unwind label ' not in line:
+            while j < len(body) and ' unwind label ' not in line:
+                line += ' ' + body[j].strip(); j += 1
+        if re.search(r'= landingpad\b', line):
+            while j < len(body) and re.match(r'\s+(catch|cleanup|filter)\b', body[j]):
+                line += ' ' + body[j].strip(); j += 1
         cur.append(strip_meta(line.strip()))
 
 # ---------------------------------------------------------------- C emission
@@ -731,7 +745,7 @@ class FnTr:
                         s.code.append('G(%d) { %s }' % (s.nvis, body))
                         if s.first_in_block.get(bn) is None: s.first_in_block[bn] = s.nvis
                     else:
-                        if s.thread and s.first_in_block.get(bn) is None and toks[0][1] in ('br', 'ret', 'switch'):
+                        if s.thread and s.first_in_block.get(bn) is None and (toks[0][1] in ('br', 'ret', 'switch', 'invoke', 'resume') or (len(toks) > 2 and toks[2][1] == 'invoke')):
                             s.first_in_block[bn] = s.nvis + 1
                         s.inst(P(toks))
                 except Exception as ex:
@@ -763,7 +777,7 @@ class FnTr:
             for n, ct in s.decl.items():
                 if n in argn: continue
                 lines.append('  static %s %s;' % (ct, n))
-            lines.append('  unsigned vp_resume = 0, vp_jump = 0; vp_blocked = 0;')
+            lines.append('  unsigned vp_resume = 0, vp_jump = 0; vp_blocked = 0; static u8* vp_lp_exc;')
             for c in s.code:
                 lines.append('  ' + c)
             lines.append('  END: if (!vp_fin) { vp_pc = vp_jump ? vp_resume : vp_cs; }')
@@ -833,8 +847,9 @@ class FnTr:
         i = 2 if hasdest else 0
         op = toks[i][1]
         if op in ('tail', 'notail', 'musttail'): i += 1; op = toks[i][1]
-        if op in ('load', 'store', 'cmpxchg', 'atomicrmw', 'fence', 'unreachable', 'udiv', 'sdiv', 'urem', 'srem'):
+        if op in ('load', 'store', 'cmpxchg', 'atomicrmw', 'fence', 'unreachable', 'udiv', 'sdiv', 'urem', 'srem', 'landingpad', 'resume'):
             return True
+        if op == 'invoke': return False      # numbered inside inst() (the branch after it must stay outside the guard)
         if op == 'call':
             callee = [v for k, v in toks if k == 'gid']
             if callee and callee[0].startswith('@llvm.'):
@@ -849,8 +864,9 @@ class FnTr:
         for bn, pl in parsed.items():
             last = pl[-1]
             op = last[0][1]
+            if len(last) > 2 and last[1][1] == '=': op = last[2][1]
             ss = []
-            if op in ('br', 'switch'):
+            if op in ('br', 'switch', 'invoke'):
                 for i, (k, v) in enumerate(last):
                     if v == 'label': ss.append(last[i + 1][1])
             succ[bn] = ss
@@ -1152,7 +1168,54 @@ class FnTr:
             return
         if op == 'call':
             s.call(p, dest); return
+        if op == 'invoke':
+            s.call(p, dest, invoke=True); return
+        if op == 'landingpad':
+            t = p.type()
+            d = s.setv(dest, t)
+            clauses = []; cleanup = False
+            while not p.eof():
+                w = p.next()[1]
+                if w == 'cleanup': cleanup = True
+                elif w == 'catch':
+                    ct_ = p.type(); cv = parse_value(p, ct_); clauses.append(cv)
+                elif w == 'filter': raise NotImplementedError('landingpad filter clause (exception specification)')
+                else: raise NotImplementedError('landingpad clause ' + w)
+            src = 'vp_lp_exc' if s.thread else 'vp_exc'
+            sel = '0'
+            for cv in reversed(clauses):
+                if cv.kind == 'null': sel = '1'
+                else:
+                    g = cv
+                    while g.kind == 'cexpr': g = g.ops[0]
+                    tid = s.M.typeids.setdefault(g.name, len(s.M.typeids) + 2)
+                    sel = '(vp_exc_matches(%s, (u8*)%s) ? %d : %s)' % (src, E.val(cv), tid, sel)
+            emit('%s.f0 = %s; %s.f1 = (u32)%s; vp_exc = 0;' % (d, src, d, sel))
+            return
+        if op == 'resume':
+            t, v = s.tv(p)
+            if s.thread:
+                emit('vp_exc_escaped();')      # thread bodies must catch everything (wrapper convention)
+                emit('vp_fin = 1; goto END;')
+            else:
+                emit('vp_exc = %s.f0; %s' % (E.val(v), s.ret_zero()))
+            return
         raise NotImplementedError('opcode ' + op)
+
+    def ret_zero(s):
+        t = s.E.resolve(s.f.ret)
+        if isinstance(t, TVoid): return 'return;'
+        if isinstance(t, (TStruct, TArr)): return 'return (%s){0};' % s.E.ct(s.f.ret)
+        return 'return (%s)0;' % s.E.ct(s.f.ret)
+
+    def may_throw(s, callee_kind, callee, call_attrs):
+        if not s.M.has_eh: return False
+        if any(a in s.M.nounwind_groups or a == 'nounwind' for a in call_attrs): return False
+        if callee_kind == 'gid':
+            fa = s.M.fn_attrs.get(callee, set())
+            if 'nounwind' in fa or any(a in s.M.nounwind_groups for a in fa): return False
+            if callee[1:].startswith('vp_') and callee[1:] not in ('vp_body', 'vp_throwing') and not callee[1:].startswith('vp_may_throw'): return False
+        return True
 
     def materialize(s, t, a):
         tmp = s.tmp(s.E.ct(t))
@@ -1170,7 +1233,7 @@ class FnTr:
                 cur = r.el
         return TPtr(cur)
 
-    def call(s, p, dest):
+    def call(s, p, dest, invoke=False):
         E = s.E; emit = s.code.append
         while p.peek()[0] == 'word' and p.peek()[1] in ('fastcc', 'ccc', 'coldcc', 'noundef', 'zeroext', 'signext', 'nonnull', 'noalias', 'fast', 'nnan', 'ninf', 'nsz'):
             p.next()
@@ -1210,6 +1273,7 @@ class FnTr:
                     if d == 0: break
             while p.accept('*'): pass
         k, callee = p.next()
+        if k == 'gid' and callee.startswith('@llvm.experimental.noalias.scope.decl'): return   # metadata-only intrinsic (no effect)
         p.expect('(')
         args = []
         if not p.accept(')'):
@@ -1221,18 +1285,45 @@ class FnTr:
         A = [E.val(v) for t, v in args]
         d = s.setv(dest, ret) if dest else None
         pre = (d + ' = ') if d else ''
+        call_attrs = []; ok_l = lp_l = None
+        while not p.eof():
+            kk, vv = p.next()
+            if vv == 'to' and invoke:
+                p.expect('label'); ok_l = p.next()[1]; p.expect('unwind'); p.expect('label'); lp_l = p.next()[1]; break
+            call_attrs.append(vv)
+        if k == 'gid' and callee[1:].startswith('llvm.'):
+            s.intrinsic(callee[1:], ret, args, A, d)
+            if invoke: emit(s.goto(ok_l))
+            return
+        throws = s.may_throw(k, callee, call_attrs)
         if k == 'gid':
             name = callee[1:]
-            if name.startswith('llvm.'):
-                s.intrinsic(name, ret, args, A, d); return
             if s.thread and callee in s.M.funcs: s.atomic_callees.add(name)
-            emit('%s%s(%s);' % (pre, E.fname(callee), ', '.join(A)))
-            if s.thread and callee not in s.M.funcs:
-                # an external stub may ask to park the calling thread (VP_BLOCK() in rt/vp.h): the call is re-executed when the thread runs next
-                emit('if (vp_block_req) { vp_block_req = 0; vp_blocked = 1; vp_jump = 1; vp_resume = %d; goto END; }' % s.nvis)
+            stmt = '%s%s(%s);' % (pre, E.fname(callee), ', '.join(A))
         else:
             sig = '%s (*)(%s)' % (E.ct(ret), ', '.join(E.ct(t) for t, v in args) or 'void')
-            emit('%s((%s)%s)(%s);' % (pre, sig, E.lname(callee), ', '.join(A)))
+            stmt = '%s((%s)%s)(%s);' % (pre, sig, E.lname(callee), ', '.join(A))
+        if not s.thread:
+            emit(stmt)
+            if invoke: emit('if (vp_exc) %s else %s' % (s.goto(lp_l), s.goto(ok_l)))
+            elif throws: emit('if (vp_exc) %s' % s.ret_zero())
+            return
+        # ---- thread mode
+        external = not (k == 'gid' and callee in s.M.funcs)
+        blockchk = ''
+        if invoke: s.nvis += 1       # invoke is numbered here (see visible()); plain calls were numbered by run()
+        kidx = s.nvis
+        if external:
+            # an external stub may ask to park the calling thread (VP_BLOCK() in rt/vp.h): the call is re-executed when the thread runs next
+            blockchk = ' if (vp_block_req) { vp_block_req = 0; vp_blocked = 1; vp_jump = 1; vp_resume = %d; goto END; }' % kidx
+        if invoke:
+            e = s.tmp('u8*')
+            if s.first_in_block.get(s.curblock) is None: s.first_in_block[s.curblock] = kidx
+            emit('G(%d) { %s%s %s = vp_exc; vp_exc = 0; if (%s) vp_lp_exc = %s; }' % (kidx, stmt, blockchk, e, e, e))
+            emit('if (%s) %s else %s' % (e, s.goto(lp_l), s.goto(ok_l)))
+        else:
+            emit(stmt + blockchk)
+            if throws: emit('if (vp_exc) { vp_exc_escaped(); vp_fin = 1; goto END; }')
 
     def intrinsic(s, name, ret, args, A, d):
         E = s.E; emit = s.code.append
@@ -1243,6 +1334,10 @@ class FnTr:
             return
         if name.startswith('llvm.expect.'):
             emit('%s = %s;' % (d, A[0])); return
+        if name == 'llvm.eh.typeid.for':
+            g = args[0][1]
+            while g.kind == 'cexpr': g = g.ops[0]
+            emit('%s = (u32)%d;' % (d, s.M.typeids.setdefault(g.name, len(s.M.typeids) + 2))); return
         if name == 'llvm.x86.sse2.pause':
             emit('vp_pause();'); return
         if name == 'llvm.trap':
@@ -1287,6 +1382,7 @@ typedef uint8_t u8; typedef uint16_t u16; typedef uint32_t u32; typedef uint64_t
 typedef void (*vp_fn)(void);
 typedef void vp_fnty(void);
 void vp_pause(void); void vp_trap(void); void vp_unreachable(void); extern unsigned vp_left; extern unsigned vp_changed; extern unsigned vp_block_req;
+extern u8* vp_exc; int vp_exc_matches(u8* obj, u8* typeinfo); void vp_exc_escaped(void);
 #define G(k) if (vp_pc <= (k) && (k) < vp_cs)
 #define SBD 2
 struct vp_sb { void* a[SBD]; u64 v[SBD]; u8 sz[SBD]; unsigned n; };
@@ -1330,7 +1426,9 @@ def main():
                 fn, sf = spec.split(':'); threads[fn] = sf.split(',')
             else:
                 threads[spec] = ['']
-    M = parse_module(open(src).read())
+    text = open(src).read()
+    M = parse_module(text)
+    M.has_eh = bool(re.search(r'\b(invoke|landingpad)\b', text))
     cuts = [args[i + 1] for i, a in enumerate(args) if a == '--cut']
     summary = {'functions': [], 'threads': {}, 'decls': [], 'cut': []}
     for name in list(M.funcs):
@@ -1361,7 +1459,7 @@ def main():
         protos.append(hdr + ';'); bodies.append(body)
         summary['functions'].append(name[1:])
     for name, (ret, args_, va) in M.decls.items():
-        if name[1:].startswith('llvm.'): continue
+        if name[1:].startswith('llvm.') or name[1:] == '__gxx_personality_v0': continue
         summary['decls'].append(name[1:])
         protos.append('%s %s(%s%s);' % (E.ct(ret), E.fname(name), ', '.join(E.ct(a) for a in args_) or ('void' if not va else ''), ', ...' if va else ''))
     globs = []
